@@ -21,6 +21,7 @@ NATIVE_PY = os.environ.get('VERIF_NATIVE_PY', '/venv/bin/python')
 
 _CONTRACTS = []
 _BYNAME = {}
+_ASSUMED = []
 
 
 def load_contracts():
@@ -129,7 +130,10 @@ def main(argv=None):
     _BYNAME = {c.name: c for c in allc}
     if a.replay:
         return do_replay(a, allc)
-    mine = [c for c in allc if c.prop == a.prop]
+    mine = [c for c in allc if c.prop == a.prop and not c.assumed]
+    global _ASSUMED
+    _ASSUMED = ['assumed contract (not verified here): %s on %s - %s' % (c.name, c.target, c.note or '')
+                for c in allc if c.prop == a.prop and c.assumed]
     if a.tier != 'thorough':
         mine = [c for c in mine if not getattr(c, 'thorough_only', False)]
     if a.only:
@@ -233,6 +237,69 @@ def report(a, seed, mine, results, t0):
                                        'where': ob_.get('exc_where'), 'msg': ob_.get('exc_msg')})
     except Exception as e:
         checker_errors.append('cross-check replay failed: %s' % e)
+    # bounded re-execution: failures on paths that start from a havocked loop
+    # state do not replay from function entry; search a reachable failing input
+    # by running the same contract with its loops unrolled (<= 3 iterations)
+    import copy as _copy
+    unconf = {}
+    for idx, (c, o) in enumerate(failing):
+        name = o['name']
+        short = name[len(c.name) + 1:] if name.startswith(c.name + '/') else name.split('/')[-1]
+        obs = obs_by_id.get(idx)
+        if obs is not None and confirm(c, short, obs)[0]:
+            continue
+        if c.loops:
+            unconf.setdefault(c.name, (c, set()))[1].add(short)
+    confirmed_by_name = set()
+    for o_c, (c, o) in enumerate(failing):
+        obs = obs_by_id.get(o_c)
+        short = o['name'][len(c.name) + 1:] if o['name'].startswith(c.name + '/') else o['name'].split('/')[-1]
+        if obs is not None and confirm(c, short, obs)[0]:
+            confirmed_by_name.add(o['name'])
+    bounded_models = {}
+    todo = [(cn, v) for cn, v in unconf.items()
+            if any((cn + '/' + sh) not in confirmed_by_name for sh in v[1])][:8]
+    if todo:
+        global _CONTRACTS
+        bl = []
+        for cn, (c, shorts) in todo:
+            c2 = _copy.copy(c)
+            c2.loops = {}
+            c2.max_unroll = 3
+            c2.budget_s = 90
+            bl.append(c2)
+        _CONTRACTS = bl
+        ctx = multiprocessing.get_context('fork')
+        try:
+            with ctx.Pool(min(a.jobs, len(bl))) as pool:
+                bres = dict(pool.imap_unordered(_work, range(len(bl))))
+        except Exception as e:
+            bres = {}
+            checker_errors.append('bounded re-execution failed: %s' % e)
+        bcases = []
+        bmeta = []
+        for i, c2 in enumerate(bl):
+            r2 = bres.get(i)
+            if r2 is None:
+                continue
+            seen_n = {}
+            for o2 in r2.obligations:
+                if o2['status'] != 'failed' or not o2['model'] or o2['model'].get('skipped'):
+                    continue
+                seen_n[o2['name']] = seen_n.get(o2['name'], 0) + 1
+                if seen_n[o2['name']] > 4:
+                    continue
+                wit = [kf['witness'] for kf in known if kf['obligation'] == o2['name']]
+                bcases.append(case_for(c2, o2['model'], len(bcases), wit))
+                bmeta.append((c2, o2))
+        try:
+            for ob_, (c2, o2) in zip(native_replay(bcases), bmeta):
+                sh2 = o2['name'][len(c2.name) + 1:] if o2['name'].startswith(c2.name + '/') else o2['name']
+                ok2, why2 = confirm(c2, sh2, ob_)
+                if ok2:
+                    bounded_models.setdefault(c2.name, []).append((o2, ob_, why2))
+        except Exception as e:
+            checker_errors.append('bounded replay failed: %s' % e)
     violations = []
     known_hits = {}
     lines = []
@@ -244,6 +311,14 @@ def report(a, seed, mine, results, t0):
         if obs is None and (per_ob.get(name, 0) > 60 or (o['model'] or {}).get('skipped')):
             continue
         okc, why = confirm(c, short, obs)
+        if not okc and c.name in bounded_models:
+            # same obligation first, any confirmed failure of the contract as a symptom otherwise
+            cands = [x for x in bounded_models[c.name] if x[0]['name'] == name] or bounded_models[c.name]
+            o2, obs2, why2 = cands[0]
+            okc, why = True, 'reachable input found by bounded re-execution (loops unrolled <= 3): ' + why2
+            obs = obs2
+            o = dict(o)
+            o['model'] = o2['model']
         matched = None
         if okc and obs is not None:
             kfs = [kf for kf in known if kf['obligation'] == name]
@@ -316,7 +391,7 @@ def report(a, seed, mine, results, t0):
             'solver_time_s': round(sum(r.solver_time for r in results), 3),
             'undecided': undecided[:20],
         },
-        'assumptions': ASSUMPTIONS + sorted(set(n for r in results for n in r.notes))[:40],
+        'assumptions': ASSUMPTIONS + _ASSUMED + sorted(set(n for r in results for n in r.notes))[:40],
         'wall_s': round(wall, 2),
         'violations': len(lines),
     }
